@@ -283,6 +283,8 @@ class Evaluator:
     def e_unary(self, e, env):
         v = self.eval(e["e"], env)
         if e["op"] == "*":
+            if isinstance(v, StructVal) and v.tyname == "Cell":
+                return v["v"]
             return v
         if e["op"] == "!":
             if not isinstance(v, bool):
@@ -317,6 +319,8 @@ class Evaluator:
             if op == "-=" and cur < r and not isinstance(cur, SInt):
                 raise Panic("unsigned-underflow", e.get("l"))
             nv = cur + r if op == "+=" else cur - r
+            if isinstance(cur, SInt) or isinstance(r, SInt):
+                nv = SInt(nv)
             if tgt.get("k") == "field":
                 b = self.eval(tgt["base"], env)
                 if isinstance(b, dict):
@@ -473,6 +477,12 @@ class Evaluator:
                 return len(recv) == 0
             if m == "len":
                 return len(recv)
+            if m == "push" and len(e["args"]) == 1:
+                recv.append(self.eval(e["args"][0], env))
+                return ()
+            if m == "sum" and not e["args"] and all(isinstance(x, int) and not isinstance(x, bool) for x in recv):
+                t_ = sum(int(x) for x in recv)
+                return SInt(t_) if any(isinstance(x, SInt) for x in recv) else t_
             if m in ("take", "skip") and len(e["args"]) == 1:
                 n_ = self.eval(e["args"][0], env)
                 if isinstance(n_, int) and not isinstance(n_, bool):
@@ -587,12 +597,20 @@ class Evaluator:
     def e_assign(self, e, env):
         l = e["left"]
         if l.get("k") == "path" and len(l["path"]) == 1 and l["path"][0] in env:
-            env["__assign__"](l["path"][0], self.eval(e["right"], env))
+            nv_ = self.eval(e["right"], env)
+            if isinstance(env[l["path"][0]], SInt) and isinstance(nv_, int) and not isinstance(nv_, bool):
+                nv_ = SInt(nv_)  # the variable keeps its (signed) type
+            env["__assign__"](l["path"][0], nv_)
             return ()
         if l.get("k") == "field":
             b = self.eval(l["base"], env)
             if isinstance(b, dict) and l["member"] in b:
                 b[l["member"]] = self.eval(e["right"], env)
+                return ()
+        if l.get("k") == "unary" and l["op"] == "*":
+            c = self.eval(l["e"], env)
+            if isinstance(c, StructVal) and c.tyname == "Cell":
+                c["v"] = self.eval(e["right"], env)
                 return ()
         raise Unknown("assignment target")
 
@@ -701,6 +719,10 @@ class Evaluator:
                 if s.get("init") is None:
                     raise Unknown("let without init")
                 v = self.eval(s["init"], env)
+                if s["pat"].get("p") == "typed" and isinstance(v, int) and not isinstance(v, bool):
+                    ty_ = re.sub(r"\s+", "", (s["pat"].get("ty") or {}).get("s", "") if isinstance(s["pat"].get("ty"), dict) else "")
+                    if ty_ in ("isize", "i64", "i32", "i16", "i8"):
+                        v = SInt(v)
                 bnd = {}
                 if not match_pat(s["pat"], v, bnd):
                     if s.get("else") is not None:
